@@ -76,7 +76,17 @@ def cases(ctx: Ctx):
         """the dust objects are looked at (a script printing their parameters), then every reaction with a grain species is removed"""
         _ = [g.model for g in net.grains]
         net.remove_reaction([i for i, r_ in enumerate(net.reaction_list) if any(s_.is_grain for s_ in r_.reactants + r_.products)])
+    el = [rec(["H+", "e-"], ["H"], 100), rec(["H", "CR"], ["H+", "e-"], 101, idx=2), rec(["H", "H"], ["H2"], 100, idx=3)]
+    (d / "el.naunet").write_text("\n".join(encoders.native(x) for x in el) + "\n")
     out = [
+        # cooling with each cvode method (the temperature row of Fex and of both Jacobians uses kc / kh)
+        ("krome+cooling, cvode sparse", dict(filelist=str(data / "primordial.krome"), fileformats="krome", cooling=["CIC_HI", "RC_HII"]), "cvode", "sparse"),
+        ("krome+cooling, cvode dense", dict(filelist=str(data / "primordial.krome"), fileformats="krome", cooling=["CIC_HI"]), "cvode", "dense"),
+        # an ODE modifier that spells a species of the network differently (E for e-): refused, or a closed program
+        ("ode modifier naming the electron as E", dict(filelist=str(d / "el.naunet"), fileformats="naunet", _may_refuse=True,
+                                                        ode_modifier={"H": {"factors": ["1.0e-17 * nH"], "reactants": [["H+", "E"]]}}), "cvode", "dense"),
+        ("ode modifier naming the electron as E, sparse", dict(filelist=str(d / "el.naunet"), fileformats="naunet", _may_refuse=True,
+                                                                ode_modifier={"H": {"factors": ["1.0e-17 * nH"], "reactants": [["H+", "E"]]}}), "cvode", "sparse"),
         ("uclchem + native grain charging, rr07x", dict(filelist=[str(d / "gas.ucl"), str(d / "charge.naunet")], fileformats=["uclchem", "naunet"], grain_model="rr07x"),
          "cvode", "dense"),
         ("uclchem + native grain charging, rr07", dict(filelist=[str(d / "gas_nothermal.ucl"), str(d / "charge.naunet")], fileformats=["uclchem", "naunet"],
@@ -176,6 +186,7 @@ def main(ctx: Ctx) -> int:
     for ci, (label, kw, solver, method) in enumerate(cases(ctx)):
         try:
             kw = dict(kw)
+            may_refuse = kw.pop("_may_refuse", False)
             prep = kw.pop("_prep", None)
             net = Network(**kw)
             if prep:
@@ -183,6 +194,9 @@ def main(ctx: Ctx) -> int:
             out = ctx.scratch / "p" / str(ci)
             render(net, solver, method, out)
         except Exception as e:  # noqa
+            if may_refuse:
+                cov["refused_cases"] = cov.get("refused_cases", 0) + 1
+                continue
             ctx.violation(f"C10|Render|{type(e).__name__}|case={label}", f"{label}: {type(e).__name__}: {e}", {"case": label})
             continue
         comps = []
